@@ -738,6 +738,10 @@ func (e *ConstEval) transfer(fn *ssa.Function, res *CEResult, v ssa.Value) CVal 
 		if a.K == CSym {
 			// a symbol stands for a decoded word; an integer conversion hands the same word on
 			if tb, isB := x.Type().Underlying().(*types.Basic); isB && tb.Info()&types.IsInteger != 0 {
+				if sb, isS := x.X.Type().Underlying().(*types.Basic); isS && sb.Info()&types.IsInteger != 0 && !intTypeHolds(tb, sb) {
+					// the target type cannot hold every value of the source type: the word is altered
+					return SymV(a.S + "~" + tb.Name())
+				}
 				return a
 			}
 		}
@@ -1226,6 +1230,41 @@ func knownNonNilAt(v ssa.Value, b *ssa.BasicBlock) bool {
 		if (s == d || s.Dominates(d)) && len(s.Preds) == 1 {
 			return true
 		}
+	}
+	return false
+}
+
+// intTypeHolds: every value of integer type src is representable in integer type dst. int, uint and uintptr
+// are taken at 64 bits (the width of the platforms the properties are stated for).
+func intTypeHolds(dst, src *types.Basic) bool {
+	bits := func(b *types.Basic) (int, bool) {
+		switch b.Kind() {
+		case types.Int8:
+			return 8, true
+		case types.Int16:
+			return 16, true
+		case types.Int32:
+			return 32, true
+		case types.Int64, types.Int, types.UntypedInt, types.UntypedRune:
+			return 64, true
+		case types.Uint8:
+			return 8, false
+		case types.Uint16:
+			return 16, false
+		case types.Uint32:
+			return 32, false
+		case types.Uint64, types.Uint, types.Uintptr:
+			return 64, false
+		}
+		return 64, true
+	}
+	db, ds := bits(dst)
+	sb, ss := bits(src)
+	switch {
+	case ss == ds:
+		return db >= sb
+	case !ss && ds:
+		return db > sb
 	}
 	return false
 }
